@@ -188,5 +188,7 @@ func threadRole(ex *vsched.Exec, id int) string {
 // passes objects between its own threads (C19 would otherwise blame netpoll for it).
 type hbFlag struct{ v int32 }
 
-func (f *hbFlag) Set()     { atomic.AddInt32(&f.v, 1) }
-func (f *hbFlag) Acquire() { atomic.LoadInt32(&f.v) }
+func (f *hbFlag) Set()        { atomic.AddInt32(&f.v, 1) }
+func (f *hbFlag) Acquire()    { atomic.LoadInt32(&f.v) }
+func (f *hbFlag) IsSet() bool { return atomic.LoadInt32(&f.v) > 0 }
+func (f *hbFlag) Reset()      { atomic.StoreInt32(&f.v, 0) }
